@@ -38,7 +38,14 @@ func refUUID(name string) [16]byte {
 // refDigest: new BigInteger(sha1(serverId ++ secret ++ key)).toString(16).
 func refDigest(serverID string, secret, key []byte) (string, [20]byte) {
 	h := sha1.New()
-	h.Write([]byte(serverID))
+	// Java: serverId.getBytes("ISO_8859_1") - one byte per character, '?' for what Latin-1 cannot express
+	for _, r := range serverID {
+		if r < 256 {
+			h.Write([]byte{byte(r)})
+		} else {
+			h.Write([]byte{'?'})
+		}
+	}
 	h.Write(secret)
 	h.Write(key)
 	var d [20]byte
